@@ -111,6 +111,12 @@ func graphOf(d *Decoded) map[string]any {
 	return map[string]any{"hwm": d.Hwm, "reach": reach, "free": free, "fl": fl, "hasfl": hasfl, "badtype": bad, "disorder": dis}
 }
 
+// BuildPanics collects panics of the real code raised while buildFiles executed generated histories.
+var (
+	BuildPanics  []string
+	buildPanicMu sync.Mutex
+)
+
 // buildFiles produces n database files in parallel.
 func buildFiles(dir string, n int, seed int64, small bool) []*BuiltFile {
 	out := make([]*BuiltFile, n)
@@ -140,13 +146,32 @@ func buildFiles(dir string, n int, seed int64, small bool) []*BuiltFile {
 				// one big flat bucket: multi-level trees with branch pages
 				g = GenCfg{Keys: 120 + rng.Intn(300), Vals: 6, MaxDepth: 2, Txs: 6 + rng.Intn(6), OpsPerTx: 60 + rng.Intn(80), PReopen: 0.1, BigBucket: 300}
 			}
+			// a panic of the real code while an ordinary history is executed is an observation about the code
+			// (reported as a finding by Finish), not a crash of the check
+			defer func() {
+				if p := recover(); p != nil {
+					buildPanicMu.Lock()
+					BuildPanics = append(BuildPanics, fmt.Sprintf("history f%03d (page size %d, profile %s): %v", i, ps, prof.Name, p))
+					buildPanicMu.Unlock()
+				}
+			}()
 			bf, err := BuildFile(filepath.Join(dir, fmt.Sprintf("f%03d.db", i)), o, prof, seed*977+int64(i), g)
 			if err == nil {
 				out[i] = bf
 			}
 		}(i)
 	}
-	wg.Wait()
+	done := make(chan struct{})
+	go func() { wg.Wait(); close(done) }()
+	select {
+	case <-done:
+	case <-time.After(20 * time.Minute):
+		// a call of the real code does not return (these histories take seconds): reported like a panic
+		buildPanicMu.Lock()
+		BuildPanics = append(BuildPanics, "a generated history did not finish within 20 minutes: a call of the real code does not return")
+		buildPanicMu.Unlock()
+		return nil
+	}
 	var r []*BuiltFile
 	for _, b := range out {
 		if b != nil {
@@ -156,7 +181,17 @@ func buildFiles(dir string, n int, seed int64, small bool) []*BuiltFile {
 	return r
 }
 
-func fileEvent(bf *BuiltFile, name string, withBytes bool) (Ev, *Decoded, error) {
+func fileEvent(bf *BuiltFile, name string, withBytes bool) (e Ev, d *Decoded, err error) {
+	// a panic of the real code while opening / reading a file is an observation about the code, not a crash of the check
+	defer func() {
+		if p := recover(); p != nil {
+			e, err = nil, fmt.Errorf("panic: %v", p)
+		}
+	}()
+	return fileEvent1(bf, name, withBytes)
+}
+
+func fileEvent1(bf *BuiltFile, name string, withBytes bool) (Ev, *Decoded, error) {
 	raw, err := os.ReadFile(bf.Path)
 	if err != nil {
 		return nil, nil, err
@@ -218,7 +253,7 @@ func CheckC12(c *Ctx) int {
 	for i, bf := range small {
 		e, d, err := fileEvent(bf, fmt.Sprintf("small-%d-%s-ps%d", i, bf.Profile.Name, bf.Opts.PageSize), true)
 		if err != nil {
-			c.Infra = append(c.Infra, "cannot observe file: "+err.Error())
+			c.Findings = append(c.Findings, Finding{Scenario: Scenario{Name: fmt.Sprintf("small-%d", i), Kind: "format"}, Spec: "harness", Detail: "file written by the current tree does not open / read back: " + err.Error()})
 			continue
 		}
 		if int(d.Hwm)*d.PageSize > 400000 {
@@ -482,6 +517,35 @@ func CheckC11(c *Ctx) int {
 		}(i, j)
 	}
 	wg.Wait()
+	// page-size detection through meta 1 for EVERY supported page size (db.go getPageSizeFromSecondMeta tries
+	// 1024 << 0..14): a small file per size, meta 0 damaged in place, opened without telling the page size
+	sweep := 0
+	for i := 0; i <= 14; i++ {
+		ps := 1024 << i
+		path := filepath.Join(dir, fmt.Sprintf("sweep-%d.db", i))
+		prof := ProfileByName(ps, "tiny")
+		bf, err := BuildFile(path, Opts{PageSize: ps}, prof, c.Seed*71+int64(i), GenCfg{Keys: 4, Vals: 3, MaxDepth: 1, Txs: 2 + i%2, OpsPerTx: 2})
+		if err != nil || bf == nil {
+			c.Infra = append(c.Infra, fmt.Sprintf("cannot build a file with page size %d: %v", ps, err))
+			continue
+		}
+		f, err := os.OpenFile(path, os.O_RDWR, 0)
+		if err != nil {
+			c.Infra = append(c.Infra, err.Error())
+			continue
+		}
+		head := make([]byte, 2*ps)
+		_, _ = f.ReadAt(head, 0)
+		head[16+48] ^= 0x5A // one byte of meta 0's txid: its checksum no longer matches
+		_, _ = f.WriteAt(head[16+48:16+49], 16+48)
+		f.Close()
+		obs := ObserveOpen(path, prof, 0, i%2 == 1)
+		events = append(events, Ev{"ev": "Metas", "name": fmt.Sprintf("sweep-ps%d-meta0-damaged", ps), "ps": ps, "m0": metaPrefix(head, ps, 0), "m1": metaPrefix(head, ps, 1), "obs": obs,
+			"versions": bf.Versions, "tooSmall": false})
+		os.Remove(path)
+		sweep++
+	}
+	c.Cov["page_sizes_swept_with_meta0_damaged"] = sweep
 	c.evalFormat(events, 14, "meta")
 	c.AddSample(events[0])
 	c.AddSample(events[len(events)-1])
@@ -489,7 +553,7 @@ func CheckC11(c *Ctx) int {
 	c.Cov["evaluations"] = len(events)
 	c.Cov["distinct_nontrivial"] = len(events)
 	c.Cov["exhaustive"] = c.Thorough()
-	c.Cov["rule"] = "one damaged copy per (file, meta slot, byte position 0..63 of the meta structure, replacement value) - all 255 values in the thorough tier, 3-4 per position in the quick tier - plus every prefix overwrite (1..64 bytes) by the would-be next meta, both metas damaged, truncated and non-database files; each is opened with the real code and TLC decides from the damaged bytes (Format.MetaAt with FNV-1a-64) which meta must be presented; all cases are distinct by construction"
+	c.Cov["rule"] = "one damaged copy per (file, meta slot, byte position 0..63 of the meta structure, replacement value) - all 255 values in the thorough tier, 3-4 per position in the quick tier - plus every prefix overwrite (1..64 bytes) by the would-be next meta, both metas damaged, truncated and non-database files, and one file per supported page size (1 KiB .. 16 MiB) with meta 0 damaged and the page size not given to Open; each is opened with the real code and TLC decides from the damaged bytes (Format.MetaAt with FNV-1a-64) which meta must be presented; all cases are distinct by construction"
 	return c.Finish(nil)
 }
 
